@@ -3,6 +3,7 @@ package props
 import (
 	"fmt"
 	"go/constant"
+	"go/token"
 	"go/types"
 	"sort"
 	"strings"
@@ -76,6 +77,9 @@ func C17(p *engine.Prog, r *engine.Report) {
 	}
 	runDeterminism(p, r, "C17-R4", entries, 8)
 	c17R5(p, r)
+	c17R7(p, r)
+	c17R8(p, r)
+	c17R9(p, r)
 }
 
 func c17R1(p *engine.Prog, r *engine.Report, consts map[int64]string, nob map[int64]bool) {
@@ -695,4 +699,204 @@ func containerFieldsOf(m ssa.Value, owner string, pkg *ssa.Package, depth int) m
 		}
 	}
 	return out
+}
+
+// c17R7: per-epoch state of the ceremony object does not survive the epoch switch.
+func c17R7(p *engine.Prog, r *engine.Report) {
+	resetCompletenessRule(p, r, "C17-R7", "core/ceremony", "ValidationCeremony", "completeEpoch", map[string]string{},
+		"the next epoch's ceremony starts with data of the finished one (candidates, lotteries, sent-flags, cached results): its outcome depends on what this node did last epoch, not only on the chain")
+	r.Floor("C17-R7", 12, "17 per-epoch fields on the pinned tree")
+}
+
+// condSig renders the comparisons on a value of named type tname that control block b
+// (single-predecessor branch successors dominating b), e.g. "grade >= 2".
+func condSig(b *ssa.BasicBlock, tname string) []string {
+	var out []string
+	for _, d := range b.Parent().Blocks {
+		if len(d.Instrs) == 0 {
+			continue
+		}
+		iff, ok := d.Instrs[len(d.Instrs)-1].(*ssa.If)
+		if !ok {
+			continue
+		}
+		branch := -1
+		for i, s := range d.Succs {
+			if len(s.Preds) == 1 && s.Dominates(b) {
+				branch = i
+			}
+		}
+		if branch < 0 {
+			continue
+		}
+		cond, neg := stripNot(iff.Cond)
+		bo, ok := cond.(*ssa.BinOp)
+		if !ok {
+			continue
+		}
+		isT := func(v ssa.Value) bool { n := engine.NamedOf(v.Type()); return n != nil && n.Obj().Name() == tname }
+		if !isT(bo.X) && !isT(bo.Y) {
+			continue
+		}
+		side := func(v ssa.Value) string {
+			if k, ok := v.(*ssa.Const); ok && k.Value != nil {
+				return k.Value.ExactString()
+			}
+			return strings.ToLower(tname)
+		}
+		pol := (branch == 0) != neg
+		s := side(bo.X) + " " + bo.Op.String() + " " + side(bo.Y)
+		if !pol {
+			s = "!(" + s + ")"
+		}
+		out = append(out, s)
+	}
+	sort.Strings(out)
+	return out
+}
+
+// c17R8: grades.addGrade and grades.deleteGrades are inverse: every counter of flipGrades is
+// changed under the same condition on the grade and by the same amount with the opposite sign.
+// (deleteGrades withdraws the grades of an ignored reporter; an asymmetry leaves part of them in
+// the committee sizes that qualify flips.)
+func c17R8(p *engine.Prog, r *engine.Report) {
+	add := mustFunc(p, r, "core/ceremony", "grades.addGrade")
+	del := mustFunc(p, r, "core/ceremony", "grades.deleteGrades")
+	if add == nil || del == nil {
+		return
+	}
+	type upd struct{ sig, op, operand, pos string }
+	collect := func(f *ssa.Function) map[string]upd {
+		out := map[string]upd{}
+		for _, b := range f.Blocks {
+			for _, ins := range b.Instrs {
+				st, ok := ins.(*ssa.Store)
+				if !ok {
+					continue
+				}
+				o, fld, ok := engine.FieldOf(st.Addr)
+				if !ok || o != "flipGrades" {
+					continue
+				}
+				u := upd{sig: strings.Join(condSig(b, "Grade"), " && "), pos: p.InstrPos(st), op: "?", operand: "?"}
+				if bo, isBin := engine.Unwrap(st.Val).(*ssa.BinOp); isBin && (bo.Op == token.ADD || bo.Op == token.SUB) {
+					u.op = bo.Op.String()
+					switch y := engine.Unwrap(bo.Y).(type) {
+					case *ssa.Const:
+						u.operand = y.Value.ExactString()
+					case *ssa.Call:
+						u.operand = engine.CallID(y)
+					default:
+						u.operand = "value"
+					}
+				}
+				if prev, dup := out[fld]; dup && prev != u {
+					u.sig = prev.sig + " | " + u.sig
+				}
+				out[fld] = u
+			}
+		}
+		return out
+	}
+	a, d := collect(add), collect(del)
+	names := map[string]bool{}
+	for f := range a {
+		names[f] = true
+	}
+	for f := range d {
+		names[f] = true
+	}
+	inv := map[string]string{"+": "-", "-": "+"}
+	for _, f := range sortedKeys(names) {
+		x, okA := a[f]
+		y, okD := d[f]
+		ok := okA && okD && x.sig == y.sig && x.operand == y.operand && inv[x.op] == y.op
+		pos := x.pos
+		if okD {
+			pos = y.pos
+		}
+		r.Check(ok, "C17-R8", "addGrade/deleteGrades|"+f+" withdrawn exactly as it was counted", pos,
+			"["+x.sig+"] "+x.op+x.operand+" vs ["+y.sig+"] "+y.op+y.operand,
+			"flipGrades."+f+": counted under ["+x.sig+"] "+x.op+x.operand+", withdrawn under ["+y.sig+"] "+y.op+y.operand+": the grades of an ignored reporter stay (partly) in the committee counts that qualify flips")
+	}
+	r.Floor("C17-R8", 4, "cnt, approveCnt, reportCnt, totalScore")
+}
+
+// c17R9: the identity list persisted at the lottery (what a restarted node rebuilds its candidates
+// and non-candidates from) holds exactly the identities the running node handled: in the scan of
+// getCandidatesAndFlips every element handed to the per-identity handler is appended to the
+// persisted list on every path.
+func c17R9(p *engine.Prog, r *engine.Report) {
+	f := mustFunc(p, r, "core/ceremony", "ValidationCeremony.getCandidatesAndFlips")
+	if f == nil {
+		return
+	}
+	isDbID := func(t types.Type) bool { n := engine.NamedOf(t); return n != nil && n.Obj().Name() == "DbLotteryIdentity" }
+	n := 0
+	for _, cl := range f.AnonFuncs {
+		// the scan callback: it appends to a captured []DbLotteryIdentity
+		var appends []*ssa.Store
+		for _, b := range cl.Blocks {
+			for _, ins := range b.Instrs {
+				if st, ok := ins.(*ssa.Store); ok {
+					if _, isFV := st.Addr.(*ssa.FreeVar); isFV {
+						if sl, isSl := st.Val.Type().Underlying().(*types.Slice); isSl && isDbID(sl.Elem()) {
+							appends = append(appends, st)
+						}
+					}
+				}
+			}
+		}
+		if len(appends) == 0 {
+			continue
+		}
+		for _, c := range engine.Calls(cl) {
+			cc := c.Common()
+			if cc.StaticCallee() != nil && cc.Signature().Results().Len() > 0 {
+				continue // the producer (toDbLotteryIdentity) and plain helpers
+			}
+			if _, isBuiltin := cc.Value.(*ssa.Builtin); isBuiltin {
+				continue
+			}
+			var elem ssa.Value
+			for _, a := range cc.Args {
+				if isDbID(a.Type()) {
+					elem = a
+				}
+			}
+			if elem == nil {
+				continue
+			}
+			n++
+			ok := false
+			for _, st := range appends {
+				if !engine.BackSlice(st.Val, engine.DefaultSlice)[elem] {
+					continue
+				}
+				if st.Block() == c.Block() {
+					ok = true
+					break
+				}
+				// every way out of the callback after the call passes the append
+				reach := engine.ReachAvoiding(cl, c.Block(), nil, map[*ssa.BasicBlock]bool{st.Block(): true})
+				leaks := false
+				for b := range reach {
+					if len(b.Instrs) > 0 {
+						if _, isRet := b.Instrs[len(b.Instrs)-1].(*ssa.Return); isRet && b != c.Block() {
+							leaks = true
+						}
+					}
+				}
+				if !leaks {
+					ok = true
+				}
+			}
+			r.Check(ok, "C17-R9", "getCandidatesAndFlips|every handled identity is persisted for the restore path", p.InstrPos(c), "handler call and append of the same element on every path", "an identity handed to the per-identity handler is not (always) appended to the list WriteLotteryIdentities stores: a node restarted during the ceremony rebuilds other candidate / non-candidate lists than a node that kept running, and computes another epoch result")
+		}
+	}
+	if n == 0 {
+		r.Und("C17-R9", "getCandidatesAndFlips|scan callback", p.Pos(f.Pos()), "no handler call taking a DbLotteryIdentity found in a callback that fills the persisted list")
+	}
+	// and the restore path hands every stored element to the same handler
+	r.Floor("C17-R9", 1, "scan callback")
 }
